@@ -65,7 +65,7 @@ try:
     for n in range(1, 21):
         pid = f"C{n:02d}"
         env = dict(os.environ, VERIF_NO_EVIDENCE="1", VERIF_OUT=f"/tmp/seed_eval_out/{name}")
-        procs[pid] = subprocess.Popen([PY, "-m", "verifstat", "check", pid], cwd="/verif", env=env, stdout=subprocess.PIPE, stderr=subprocess.STDOUT, text=True)
+        procs[pid] = subprocess.Popen([PY, "-m", "verifstat", "check", pid], cwd=os.environ.get("SEED_VERIF", "/verif"), env=env, stdout=subprocess.PIPE, stderr=subprocess.STDOUT, text=True)
     for pid, p in procs.items():
         text, _ = p.communicate()
         rules = sorted({ln.strip().split(":")[0] for ln in text.splitlines() if ln.startswith("  C")})
